@@ -110,8 +110,11 @@ check("C10",
       "MC_Scan (Scan.tla): the per-group state operator of scan_binary_op (both modes) is associative on block states and the folded prefix plus the "
       "final step equals the sequential per-group NumPy scan position by position, for every input, every chunking (every prefix-tree shape) and bfill as "
       "mirrored ffill; real dask_groupby_scan graphs are executed task by task with every grouped_reduce / chunk_scan / scan_binary_op output validated "
-      "by TraceScan.tla, and eager/chunked Returns are validated against Ref!RefScan.",
-      TB + " Positions whose label is missing are unspecified.", "TLC scan-operator model + task-level and API-level trace validation", "DESIGN.md section 5 C10")
+      "by TraceScan.tla, and eager/chunked Returns are validated against Ref!RefScan.  FloxScan.tla composes the whole groupby_scan call (validation order, "
+      "pass-through, single-member shortcut, eager scan, the cumreduction task graph with EVERY task order and EVERY bracketing of the block states, finalize) "
+      "and is model-checked (Inv_ScanResult, Inv_TreeIndependent, Inv_NoLeak, Inv_CleanRefusal, five vacuity witnesses); its TLC-simulated behaviours "
+      "(incl. +-inf data, refusal cells, shortcuts) are replayed into the real groupby_scan.",
+      TB + " Positions whose label is missing are unspecified.", "TLC scan-operator model + composed call model FloxScan.tla (TLC, all task orders and bracketings) + task-level and API-level trace validation + replay of TLC-generated behaviours into groupby_scan", "DESIGN.md section 5 C10 and 12.11")
 
 check("C17",
       "MC_Rechunk: the transcribed _get_optimal_chunks_for_groups and the division loop of rechunk_for_cohorts satisfy the postconditions (valid chunks, no "
